@@ -337,6 +337,9 @@ func New(ch *choose.Recorder, cfg Config, hooks Hooks) *Sim {
 			return
 		}
 		c, raw := cloneTable(t)
+		if f := s.InCallbackLive; f != nil {
+			f(s, "table", t, c)
+		}
 		s.q.push(&Event{Kind: "table", Table: c, Raw: raw})
 	}
 	cb.OnTableStateUpdated = func(name string, t *pokertable.Table) {
